@@ -3,6 +3,7 @@ PROP = dict(
     lean_modules=["TongoProofs.C04"],
     gen=["TlbTypes", "IntTypes"],
     spec_ops=("tlb.spec", "tlb.extmsg"),
+    info_ops=("tlb.canoninfo",),  # statistics: how many real cells pass the model's canonicity check (a canonical cell the Go code does not reproduce fails op tlb.canon)
     line_timeout="60s",
     rule="primitives EXHAUSTIVELY over the widths: UintN and IntN for every N in 1..64 and 128/256/257 at "
          "0/1/max/top-bit/min/-1 plus random values, VarUInteger n for every n in 1..32 at every byte length "
